@@ -125,8 +125,9 @@ func (r *RibEntry) updateNexthopsEnc() {
 	routes := append([]*Route{}, r.routes...)
 
 	// Get all possible nexthops for parents that are inherited,
-	// unless we have the capture flag set
-	if !r.HasCaptureRoute() {
+	// unless we have the capture flag set. An entry without routes
+	// has no nexthops of its own (lookups fall through to its parents).
+	if len(r.routes) > 0 && !r.HasCaptureRoute() {
 		for entry := r; entry != nil; entry = entry.parent {
 			for _, route := range entry.routes {
 				if route.HasChildInheritFlag() {
